@@ -145,6 +145,20 @@ func RunC06(c *Ctx) {
 				}
 			}
 		})
+		c.Guarded(cs, "DecodeString (target correlated with the raw input)", func() {
+			// the target already holds what the raw bytes of the token look like (or the decoded value):
+			// a 'value unchanged' shortcut must still validate and decode (seeded change C06r7-m1)
+			for _, t := range rawStringTargets(d) {
+				sv := t
+				p, err := rjson.DecodeString(d, &sv, nil)
+				c.Rec.Evals(1)
+				if wok && (err != nil || sv != string(ws) || p != wend) {
+					c.Rec.Violate(cs, "DecodeString(target correlated with the input) value/offset!=model", "DecodeString", exp, fmt.Sprintf("prior target %q: val=%q p=%d err=%s", t, sv, p, errStr(err)))
+				} else if !wok && !startsWithNull(d) && (err == nil || sv != t) {
+					c.Rec.Violate(cs, "DecodeString(target correlated with the input) accepts a malformed token or writes the target", "DecodeString", exp, fmt.Sprintf("prior target %q: val=%q p=%d err=%s", t, sv, p, errStr(err)))
+				}
+			}
+		})
 		c.Guarded(cs, "DecodeString", func() {
 			sv := "sentinel"
 			p, err := rjson.DecodeString(d, &sv, &scratch)
